@@ -34,7 +34,7 @@ def check_cache(
 
     from hypergraph.cache import compute_cache_key
 
-    cache_key = compute_cache_key(f"{node.definition_hash}:{node.outputs}", inputs)
+    cache_key = compute_cache_key(f"{node.definition_hash}:{node.outputs}:{getattr(node, 'targets', None)}", inputs)
     if not cache_key:
         return "", None
 
